@@ -345,7 +345,11 @@ pub struct WinSpec { pub width: usize, pub slide: usize, pub block: Vec<Pat> }
 #[derive(Serialize, Deserialize, Clone, Debug)]
 pub enum Policy { Wait, Steal, Timeout { ms: u64, steal: bool } }
 #[derive(Serialize, Deserialize, Clone, Debug)]
-pub struct MultiCase { pub hash_seed: u64, pub wins: Vec<WinSpec>, pub static_block: Vec<Pat>, pub static_data: Vec<Fact>, pub policy: Policy, pub start: usize, pub events: Vec<Ev>, pub schedules: Vec<(u64, bool)>, pub shared_vocab: bool }
+pub struct MultiCase { pub hash_seed: u64, pub wins: Vec<WinSpec>, pub static_block: Vec<Pat>, pub static_data: Vec<Fact>, pub policy: Policy, pub start: usize, pub events: Vec<Ev>, pub schedules: Vec<(u64, bool)>, pub shared_vocab: bool,
+    /// 0 = plain multi-window engine; 1 / 2 = cross-window (SDS+) coordinator in Incremental / Naive mode, switched on by rules that derive nothing the blocks can see
+    #[serde(default)] pub cross_rules: u8,
+    /// the static N-Triples are loaded before this event index (0 = before streaming starts)
+    #[serde(default)] pub static_after: usize }
 pub struct C11;
 
 struct MultiOut { marks: Vec<usize>, contents: Vec<Vec<(usize, BTreeSet<Fact>)>> }
@@ -361,8 +365,18 @@ fn multi_query(c: &MultiCase) -> String {
 fn multi_scenario(c: &MultiCase, mode: OperationMode, out: Arc<Mutex<Vec<Row>>>) -> Result<MultiOut, String> {
     kolibrie_verif_rt::clock::install(1_000_000);
     let policy = match &c.policy { Policy::Wait => SyncPolicy::Wait, Policy::Steal => SyncPolicy::Steal, Policy::Timeout { ms, steal } => SyncPolicy::Timeout { duration: std::time::Duration::from_millis(*ms), fallback: if *steal { Fallback::Steal } else { Fallback::Drop } } };
-    let mut e = build_engine(&multi_query(c), "", mode, Some(policy), out.clone())?;
-    if !c.static_data.is_empty() { let nt: String = c.static_data.iter().map(|f| format!("<{}> <{}> <{}> .\n", f.0, f.1, f.2)).collect(); e.add_static_ntriples(&nt); }
+    let mut e = if c.cross_rules == 0 { build_engine(&multi_query(c), "", mode, Some(policy), out.clone())? } else {
+        // one rule that can never fire and one that fires on stream 0's items but derives a predicate no block mentions
+        let p0 = c.events.iter().find(|e| e.stream % c.wins.len() == 0).map(|e| e.p.clone()).unwrap_or_else(|| iri("p0"));
+        let rules = format!("{{ ?s <:w0{}> ?v .\n  ?s <:w1{}> ?r }}\n=> {{ ?s <:w0{}> ?r }}\n{{ ?s <:w0{}> ?v }}\n=> {{ ?s <:w0{}> ?v }}\n", iri("never1"), iri("never2"), iri("flag"), p0, iri("seen"));
+        let out2 = out.clone();
+        let consumer = ResultConsumer { function: Arc::new(move |r: Row| { trace(b'R'); out2.lock().unwrap().push(r); }) };
+        let r2r = Box::new(SimpleR2R::with_execution_mode(QueryExecutionMode::Volcano));
+        RSPBuilder::new().add_rsp_ql_query(&multi_query(c)).add_cross_window_rules(&rules).set_cross_window_reasoning_mode(if c.cross_rules == 1 { CrossWindowReasoningMode::Incremental } else { CrossWindowReasoningMode::Naive })
+            .add_consumer(consumer).add_r2r(r2r).set_operation_mode(mode).set_sync_policy(policy).build().map_err(|e| e.to_string())?
+    };
+    let static_nt: String = c.static_data.iter().map(|f| format!("<{}> <{}> <{}> .\n", f.0, f.1, f.2)).collect();
+    if !c.static_data.is_empty() && c.static_after == 0 { e.add_static_ntriples(&static_nt); }
     let n = c.wins.len();
     let sinks: Vec<Arc<Mutex<Vec<Vec<Triple>>>>> = (0..n).map(|_| Arc::new(Mutex::new(vec![]))).collect();
     let mut probes: Vec<CSPARQLWindow<Triple>> = c.wins.iter().zip(sinks.iter()).map(|(w, s)| probe_window(w.width, w.slide, s.clone())).collect();
@@ -371,6 +385,7 @@ fn multi_scenario(c: &MultiCase, mode: OperationMode, out: Arc<Mutex<Vec<Row>>>)
     let mut ts = c.start; let mut marks = vec![];
     for (i, ev) in c.events.iter().enumerate() {
         if i > 0 { ts += ev.gap; }
+        if !c.static_data.is_empty() && c.static_after > 0 && c.static_after == i { e.add_static_ntriples(&static_nt); }
         if ev.advance_ms > 0 { kolibrie_verif_rt::clock::advance(ev.advance_ms * 1_000_000); kolibrie_verif_rt::thread::sleep(std::time::Duration::ZERO); }
         let w = ev.stream % n;
         let f: Fact = (ev.s.clone(), ev.p.clone(), ev.o.clone());
@@ -395,12 +410,19 @@ fn project(r: &Row, vars: &BTreeSet<String>) -> Row { let mut v: Row = r.iter().
 
 /// soundness of one emitted row against what each window itself reported up to `upto` (event index, inclusive)
 fn judge_row(c: &MultiCase, r: &Row, contents: &[Vec<(usize, BTreeSet<Fact>)>], upto: usize) -> Option<Violation> {
-    let static_set: BTreeSet<Fact> = c.static_data.iter().cloned().collect();
+    // static data loaded late: a row emitted (single-thread: during event `upto`) before the load sees an empty static store;
+    // rows of a multi-thread run arrive asynchronously and are judged against the data loaded by the end of the run
+    let loaded = c.static_after == 0 || upto >= c.static_after.min(c.events.len().saturating_sub(1)) && c.static_after < c.events.len();
+    let static_set: BTreeSet<Fact> = if loaded { c.static_data.iter().cloned().collect() } else { BTreeSet::new() };
     for (wi, w) in c.wins.iter().enumerate() {
         let vars = block_vars(&w.block);
         let pr = project(r, &vars);
         if pr.len() != vars.len() { return Some(Violation::new("row-lacks-window-variables", format!("row {:?} does not bind all variables {:?} of window {}", r, vars, wi))); }
-        let own: Vec<&BTreeSet<Fact>> = contents[wi].iter().filter(|(i, _)| *i <= upto).map(|(_, k)| k).collect();
+        // cross-window (SDS+) mode keeps a window's items alive by expiry (event time + width, evaluated at the time the content
+        // last changed), so a block may legitimately see items of two consecutive reports of its own window together: there
+        // the row must be an answer over what this window reported so far taken together (isolation from the other windows and
+        // from the static data is still demanded in full)
+        let cumulative: BTreeSet<Fact>; let own: Vec<&BTreeSet<Fact>> = if c.cross_rules > 0 { cumulative = contents[wi].iter().filter(|(i, _)| *i <= upto).flat_map(|(_, k)| k.iter().cloned()).collect(); vec![&cumulative] } else { contents[wi].iter().filter(|(i, _)| *i <= upto).map(|(_, k)| k).collect() };
         if own.iter().any(|k| rows_of(&w.block, k).iter().any(|x| project(x, &vars) == pr)) { continue; }
         // not an answer over anything this window reported: what does explain it?
         let mut foreign: BTreeSet<Fact> = BTreeSet::new(); for (wj, cs) in contents.iter().enumerate() { if wj != wi { for (_, k) in cs { foreign.extend(k.iter().cloned()); } } }
@@ -415,7 +437,7 @@ fn judge_row(c: &MultiCase, r: &Row, contents: &[Vec<(usize, BTreeSet<Fact>)>], 
 impl Prop for C11 {
     type Case = MultiCase;
     fn id(&self) -> &'static str { "C11" }
-    fn expected_counters(&self) -> Vec<&'static str> { vec!["fault.shuttle_schedule_executed", "fault.coordinator_timeout_fired", "probe.consumer_rows_interleaved_with_pushes", "probe.static_block_present"] }
+    fn expected_counters(&self) -> Vec<&'static str> { vec!["fault.shuttle_schedule_executed", "fault.coordinator_timeout_fired", "probe.consumer_rows_interleaved_with_pushes", "probe.static_block_present", "probe.static_block_over_empty_static_store", "probe.static_data_loaded_mid_run", "probe.cross_window_coordinator_path", "probe.cross_window_path_emitted_rows"] }
     fn budget(&self, tier: Tier) -> Budget { match tier { Tier::Quick => Budget { runs: 4000, wall_s: 60, recheck: 20 }, Tier::Thorough => Budget { runs: 250_000, wall_s: 1000, recheck: 60 } } }
     fn hash_seed(&self, c: &MultiCase) -> u64 { c.hash_seed }
     fn gen(&self, seed: u64, _i: u64, tier: Tier) -> MultiCase {
@@ -429,12 +451,15 @@ impl Prop for C11 {
         let wins: Vec<WinSpec> = (0..n).map(|w| { let k = 1 + r.usize(2); let block = (0..k).map(|i| (if join_var && i == 0 { "?j".to_string() } else if r.chance(1, 6) { node(&mut r) } else { format!("?a{}{}", w, i) }, pred(&mut r, w), if two_shared && i == 0 { "?k".to_string() } else if r.chance(1, 6) { node(&mut r) } else { format!("?a{}{}", w, i + 1) })).collect(); WinSpec { width: 1 + r.usize(6), slide: 1 + r.usize(4), block } }).collect();
         let with_static = cfg.chance(1, 3);
         let static_block: Vec<Pat> = if with_static { vec![(if join_var { "?j".into() } else { "?a00".into() }, if shared_vocab && r.chance(1, 2) { iri("p") } else { iri("loc") }, if two_shared && r.chance(1, 2) { "?k".into() } else { "?room".into() })] } else { vec![] };
-        let static_data: Vec<Fact> = if with_static { (0..(1 + r.usize(4))).map(|_| (node(&mut r), static_block[0].1.clone(), node(&mut r))).collect() } else { vec![] };
+        // the static block may face an empty static store (never loaded), or one that is loaded in the middle of the run
+        let static_data: Vec<Fact> = if with_static && !cfg.chance(1, 5) { (0..(1 + r.usize(4))).map(|_| (node(&mut r), static_block[0].1.clone(), node(&mut r))).collect() } else { vec![] };
+        let static_late = with_static && cfg.chance(1, 4);
+        let cross_rules = if cfg.chance(1, 3) { 1 + cfg.below(2) as u8 } else { 0 };
         let policy = match cfg.below(4) { 0 => Policy::Wait, 1 => Policy::Steal, k => Policy::Timeout { ms: 10 + r.below(100), steal: k == 2 } };
         let ne = 6 + r.usize(20);
         let events = (0..ne).map(|_| { let w = r.usize(n); Ev { gap: r.usize(3), stream: w, s: node(&mut r), p: pred(&mut r, w), o: node(&mut r), advance_ms: if r.chance(1, 4) { r.below(150) } else { 0 } } }).collect();
         let ns = if tier == Tier::Quick { 3 } else { 8 };
-        MultiCase { hash_seed: Rng::sub(seed, "hash").next(), wins, static_block, static_data, policy, start: r.usize(3), events, schedules: (0..ns).map(|i| (sr.next(), i % 2 == 1)).collect(), shared_vocab }
+        MultiCase { hash_seed: Rng::sub(seed, "hash").next(), wins, static_block, static_data, policy, start: r.usize(3), events, schedules: (0..ns).map(|i| (sr.next(), i % 2 == 1)).collect(), shared_vocab, cross_rules, static_after: if static_late { 1 + r.usize(ne) } else { 0 } }
     }
     fn exec(&self, c: &MultiCase, ctx: &mut Ctx) -> Option<Violation> {
         if c.wins.len() < 2 || c.events.is_empty() || c.wins.iter().any(|w| w.block.is_empty() || w.width == 0 || w.slide == 0) { return None; }
@@ -448,8 +473,8 @@ impl Prop for C11 {
         // a different defect in the same run is still reported first
         let mut deferred: Option<Violation> = None;
         let mut start = 0usize;
-        for (i, mark) in a.marks.iter().enumerate() { for r in &rows_a[start..*mark] { if let Some(mut v) = judge_row(c, r, &a.contents, i) { v.detail = format!("single-thread, policy {:?}, event {}: {}", c.policy, i, v.detail); if v.class == "foreign-window-items" && c.shared_vocab { deferred.get_or_insert(v); } else { return Some(v); } } } start = *mark; }
-        for r in &rows_a[start..] { if let Some(mut v) = judge_row(c, r, &a.contents, usize::MAX) { v.detail = format!("single-thread, at shutdown: {}", v.detail); if v.class == "foreign-window-items" && c.shared_vocab { deferred.get_or_insert(v); } else { return Some(v); } } }
+        for (i, mark) in a.marks.iter().enumerate() { for r in &rows_a[start..*mark] { if let Some(mut v) = judge_row(c, r, &a.contents, i) { v.detail = format!("single-thread, policy {:?}, event {}: {}", c.policy, i, v.detail); if v.class == "foreign-window-items" && c.shared_vocab && c.cross_rules == 0 { deferred.get_or_insert(v); } else { return Some(v); } } } start = *mark; }
+        for r in &rows_a[start..] { if let Some(mut v) = judge_row(c, r, &a.contents, usize::MAX) { v.detail = format!("single-thread, at shutdown: {}", v.detail); if v.class == "foreign-window-items" && c.shared_vocab && c.cross_rules == 0 { deferred.get_or_insert(v); } else { return Some(v); } } }
         ctx.count("rows_emitted_single_thread", rows_a.len() as u64);
         let _ = take_trace_hash();
         // ---- multi-thread mode (worker per window + coordinator) under seeded schedules and the simulated clock
@@ -468,7 +493,7 @@ impl Prop for C11 {
             }
             let b = match res.lock().unwrap().take() { Some(Ok(b)) => b, _ => return Some(Violation::new("multi-thread-no-termination", "scenario did not complete".into())) };
             let rows = rows_b.lock().unwrap().clone();
-            for r in &rows { if let Some(mut v) = judge_row(c, r, &b.contents, usize::MAX) { v.detail = format!("multi-thread, policy {:?}, schedule (seed {}, pct {}): {}", c.policy, seed, pct, v.detail); if v.class == "foreign-window-items" && c.shared_vocab { deferred.get_or_insert(v); } else { return Some(v); } } }
+            for r in &rows { if let Some(mut v) = judge_row(c, r, &b.contents, usize::MAX) { v.detail = format!("multi-thread, policy {:?}, schedule (seed {}, pct {}): {}", c.policy, seed, pct, v.detail); if v.class == "foreign-window-items" && c.shared_vocab && c.cross_rules == 0 { deferred.get_or_insert(v); } else { return Some(v); } } }
             ctx.count("rows_emitted_multi_thread", rows.len() as u64);
             if matches!(c.policy, Policy::Timeout { .. }) && c.events.iter().any(|e| e.advance_ms > 0) { ctx.hit("fault.clock_advanced_past_coordinator_deadline_candidates"); }
             let (th, inter) = take_trace_hash(); ctx.state(th); if inter { ctx.hit("probe.consumer_rows_interleaved_with_pushes"); }
@@ -476,7 +501,8 @@ impl Prop for C11 {
         if !rows_a.is_empty() { ctx.nontrivial(kolibrie_verif_rt::log::fnv(&format!("{:?}{:?}", c.events, c.wins))); }
         if deferred.is_some() { return deferred; }
         if c.shared_vocab { ctx.hit("class.windows_share_vocabulary"); } else { ctx.hit("class.disjoint_vocabularies"); }
-        if !c.static_block.is_empty() { ctx.hit("probe.static_block_present"); }
+        if !c.static_block.is_empty() { ctx.hit("probe.static_block_present"); if c.static_data.is_empty() { ctx.hit("probe.static_block_over_empty_static_store"); } if c.static_after > 0 && !c.static_data.is_empty() { ctx.hit("probe.static_data_loaded_mid_run"); } }
+        if c.cross_rules > 0 { ctx.hit("probe.cross_window_coordinator_path"); if !rows_a.is_empty() { ctx.hit("probe.cross_window_path_emitted_rows"); } }
         None
     }
     fn shrink(&self, c: &MultiCase) -> Vec<MultiCase> {
@@ -487,13 +513,15 @@ impl Prop for C11 {
         if !c.static_block.is_empty() { out.push(MultiCase { static_block: vec![], static_data: vec![], ..c.clone() }); }
         for s in shrink_vec(&c.static_data) { if !s.is_empty() { out.push(MultiCase { static_data: s, ..c.clone() }); } }
         if !matches!(c.policy, Policy::Wait) { out.push(MultiCase { policy: Policy::Wait, ..c.clone() }); }
+        if c.cross_rules > 0 { out.push(MultiCase { cross_rules: 0, ..c.clone() }); }
+        if c.static_after > 0 { out.push(MultiCase { static_after: 0, ..c.clone() }); }
         for (i, e) in c.events.iter().enumerate() { if e.advance_ms > 0 { let mut ev = c.events.clone(); ev[i].advance_ms = 0; out.push(MultiCase { events: ev, ..c.clone() }); } if e.gap > 0 { let mut ev = c.events.clone(); ev[i].gap = 0; out.push(MultiCase { events: ev, ..c.clone() }); } }
         out
     }
     fn rule(&self) -> String { "A case is one continuous query over 2-3 windows on 2-3 streams (independent width/slide, blocks that share vocabulary across streams in half of the cases and use disjoint vocabularies in the other half, optional join variable, optional static block + static N-Triples) under Wait / Steal / Timeout{Steal|Drop}, run in single-thread mode and in multi-thread mode (worker per window + coordinator) under seeded shuttle schedules with the simulated clock advanced between pushes so coordinator time-outs fire before, between and after the windows of a cycle. One probe window per engine window records what each window reported. Oracle (soundness only): every emitted row, projected onto a window block's variables, is an answer of that block over some content that window itself reported; the static part is an answer over the static data; all threads terminate. Non-trivial = at least one row emitted; distinct = hash of (events, windows).".into() }
     fn assumptions(&self) -> Vec<String> { vec!["soundness only: no completeness, timing or 'which cycle' requirement, so no schedule can make the oracle alarm spuriously".into(), "in multi-thread mode a row may be explained by any content the window reported during the run (rows arrive asynchronously)".into(), "no rules are loaded in multi-window scenarios".into()] }
     fn real_vs_stub(&self) -> serde_json::Value { serde_json::json!({"real": ["RSPEngine (window processors, coordinator, join_window_results, natural_join, emit_results, static store)", "SimpleR2R", "CSPARQLWindow"], "simulated": ["std thread / Mutex / mpsc (shuttle)", "crossbeam channel incl. recv_timeout on the simulated clock", "Instant (simulated clock)", "event source", "hash keys"], "not_run": ["cross-window SDS+ reasoning path (C12 drives incremental_sds_plus directly)"]}) }
-    fn matches_known(&self, c: &MultiCase, v: &Violation, m: &str) -> bool { match m { "foreign-window-items-shared-vocabulary" => v.class == "foreign-window-items" && c.shared_vocab, _ => false } }
+    fn matches_known(&self, c: &MultiCase, v: &Violation, m: &str) -> bool { match m { "foreign-window-items-shared-vocabulary" => v.class == "foreign-window-items" && c.shared_vocab && c.cross_rules == 0, _ => false } }
 }
 
 // =====================================================================================================================
